@@ -446,21 +446,30 @@ func cutOffsets(r *vlib.RNG, n int, l *refLayout, bs, extra int, allBelow int) [
 		return out
 	}
 	seen := map[int]bool{}
-	add := func(c int) {
-		for k := c - 16; k <= c+16; k++ {
+	add := func(c, w int) {
+		for k := c - w; k <= c+w; k++ {
 			if k >= 0 && k <= n {
 				seen[k] = true
 			}
 		}
 	}
-	add(0)
-	add(n)
-	for _, c := range l.Chunks {
-		add(c.Off)
-		add(c.Off + refHeader)
+	add(0, 16)
+	add(n, 16)
+	// every chunk boundary when there are few, a random selection of them otherwise
+	chunks := l.Chunks
+	if len(chunks) > 12 {
+		chunks = nil
+		for i := 0; i < 12; i++ {
+			chunks = append(chunks, l.Chunks[r.Intn(len(l.Chunks))])
+		}
+	}
+	for _, c := range chunks {
+		add(c.Off, 9)
+		add(c.Off+refHeader, 2)
+		add(c.Off+refHeader+c.Len, 9)
 	}
 	for b := bs; b <= n+16; b += bs {
-		add(b)
+		add(b, 16)
 	}
 	for i := 0; i < extra; i++ {
 		seen[r.Intn(n+1)] = true
